@@ -191,5 +191,15 @@ theorem D_conj_symm (zaArr zgArr : Array (Cx ℝ)) (za zg : Cx ℝ) (ell : ℕ) 
   · rw [hza 0 (Nat.zero_le _)]; simp
   · rw [hzg 0 (Nat.zero_le _)]; simp
 
+/-- the hypotheses of `sYlm_eq_D_column` / `D_conj_symm` are satisfiable for every `zₐ`, `zᵧ`, ℓ, s -/
+example (a g : ℂ) (ell : ℕ) (s : ℤ) :
+    ∃ (za zg zgpowY : Cx ℝ) (zaArr zgArr : Array (Cx ℝ)),
+      toC za = a ∧ toC zg = g ∧
+      (∀ k ≤ ell, toC (cget zaArr k) = toC za ^ k) ∧
+      (∀ k ≤ ell, toC (cget zgArr k) = toC zg ^ k) ∧
+      toC zgpowY = toC zg ^ s.natAbs :=
+  ⟨ofC a, ofC g, ofC (g ^ s.natAbs), powArr a ell, powArr g ell,
+    rfl, rfl, powArr_spec a ell, powArr_spec g ell, rfl⟩
+
 end Routes
 end
